@@ -312,18 +312,17 @@ def check(c: sym.Ctx, case: Dict[str, Any], ev: List[Any], is_now: Any, start: A
     # 2. cron: per poll, exactly one send iff the expression matches the minute in which that poll evaluated it
     calls = list(is_now.calls)
     for src, sid, expr in (("s0", "cron0", "EXPR0"), ("s1", "cron1", "EXPR1")):
-        mine = [dt for (ex, dt) in calls if ex == expr]
         listed_at = [x for x in ev if x[0] == "listed" and x[1] == src and sid in x[3]]
-        c.check(len(mine) == len(listed_at), "cron_evaluated_once_per_listing", sid=sid, evaluated=len(mine), listed=len(listed_at))
-        for e, dt in zip(listed_at, mine):
+        for e in listed_at:
             k = e[2]
+            if k not in q:
+                continue
             pk = [x[3] for x in ev if x[0] == "poll" and x[1] == "s0" and x[2] == k][0]
             sends = [x for x in ev if x[0] == "send" and x[1] == sid and x[3] == k]
-            at = dt.us  # UTC instant the code evaluated the expression at
+            # the expectation is stated on the poll alone (the instant the loop evaluates its schedules, shifted by the schedule's
+            # offset), not on how or how often the code consults pycron: caching or truncating to the minute is the code's business
             shift = cron_off.us if (cron_off is not None and sid == "cron0") else 0
-            c.check(at == q[k] + shift, "cron_evaluated_at_the_poll", sid=sid, poll=k)
-            c.check(dt.wall() == q[k] + shift, "cron_evaluated_on_the_clock_shifted_by_its_offset", sid=sid, poll=k)
-            want = is_now.match(expr, dt.wall() // MIN)
+            want = is_now.match(expr, (q[k] + shift) // MIN)
             n = len(sends)
             c.check(n <= 1, "cron_sent_at_most_once_per_poll", sid=sid, poll=k, n=n)
             if n == 1:
@@ -395,11 +394,18 @@ def confirm(f: Dict[str, Any]) -> Any:
             if k.startswith("lat"):
                 v2[k] = min(int(v2[k]) + bump, LAT)
         variants.append(v2)
+    if "T" in base:
+        # ... and the one-shot's time moved off a tie with a minute boundary / a poll's wake-up
+        for dT in (1, 1000, 500_000, -1, -1000, 1_000_001):
+            variants.append({**base, "T": int(base["T"]) + dT})
     want = signature(f)
+    cron_labels = {"cron_sent_in_every_matching_minute", "cron_sent_only_in_matching_minute"}
     for v in variants:
         rep = sym.replay(harness, f["case"], v, f["choices"])
         got = [signature(g) for g in rep["failures"]]
-        if want in got:
+        # the replay instantiates the uninterpreted matcher with one real expression, so "sent in a minute that does not match"
+        # and "not sent in a minute that matches" show up as the same failed obligation there
+        if want in got or (want in cron_labels and cron_labels & set(got)):
             return True, {"reproduced": want, "assignment": {k: x for k, x in v.items() if not k.startswith(("_", "t", "w"))}, "events": rep["events"][-30:]}
     return False, {"wanted": want, "got": got, "events": rep["events"][-30:]}
 
@@ -565,7 +571,7 @@ def concrete(c: sym.Ctx, case: Dict[str, Any]) -> None:
                 wk = _sched.EPOCH_UTC + real_dt.timedelta(microseconds=pk) + cron_td
                 if (wk.day, wk.month) != (w0.day, w0.month) or ((wk + real_dt.timedelta(seconds=3)).day != wk.day):
                     continue  # the shifted clock left the pinned day
-                c.check(n == 1, "cron_evaluated_on_the_clock_shifted_by_its_offset", sid=sid, poll=e[2])
+                c.check(n == 1, "cron_sent_in_every_matching_minute", sid=sid, poll=e[2], offset=str(cron_td), shifted_clock=str(wk))
                 continue
             c.check(n == 1, "cron_sent_in_every_matching_minute", sid=sid, poll=e[2])
 
